@@ -434,6 +434,18 @@ func (g *codecTotGen) wraps(raw []byte) {
 				m = append(append([]byte{}, raw[:o]...), byte(c8))
 				m = append(m, g.r.Bytes((c8*s)%256+k)...)
 				g.out(g.final(m), 0)
+				// 32-bit count fields: count·s ≡ k·s (mod 2^32) for count = 2^32/g + k, g the power of two in s — a length
+				// check computed in uint32 sees k records where the count announces a billion
+				if k == 0 || s <= 28 {
+					pw := 1
+					for s%(pw*2) == 0 {
+						pw *= 2
+					}
+					c32 := uint64(1<<32)/uint64(pw) + uint64(k)
+					m = append(append([]byte{}, raw[:o]...), byte(c32>>24), byte(c32>>16), byte(c32>>8), byte(c32))
+					m = append(m, g.r.Bytes(k*s)...)
+					g.out(g.final(m), 0)
+				}
 			}
 		}
 	}
